@@ -256,6 +256,12 @@ def apply_simple_op(world, op):
     """non-randomize operations: applied to the real object and to the shadow"""
     k = op[0]
     vsc = world.vsc
+    if k == "illformed_call":
+        # a randomize_with whose inline body is ill-formed (refers to an element the list does not have): whatever it raises is the
+        # user's; what is checked is that the object is usable and idle afterwards
+        _do_call(world, ["randomize_with", op[1], op[2]])
+        world.sync_shadow_values()
+        return
     if k == "set":
         path, v = tuple(op[1]), op[2]
         try:
@@ -557,6 +563,19 @@ def _apply_pre_sets(world, node, path, pre_sets):
                 tgt = P.get_node(node, tuple(act[1]))
                 tgt["val"] = wrapv(act[2], tgt["w"], tgt["signed"])
                 pre_sets[tuple(path) + tuple(act[1])] = tgt["val"]
+            elif act[0] == "append":
+                # the hook grows a list of the object: the new element is part of the tree the call randomizes
+                lst = P.get_node(node, tuple(act[1]))
+                e = P.mk_elem(world.prog, lst["elem"], lst["rand"])
+                if e["k"] == "s":
+                    e["val"] = wrapv(act[2], e["w"], e["signed"])
+                lst["elems"].append(e)
+                P.mark_used_rand(e, lst.get("used"), 2)
+                lp = tuple(path) + tuple(act[1])
+                pre_sets[lp + ("size",)] = len(lst["elems"])
+                for sub, nd in P.walk_leaves(e, lp + (len(lst["elems"]) - 1,)):
+                    if nd.get("k") in ("s", "e") and sub[-1] != "size":
+                        pre_sets[sub] = nd["val"]
         for fn, ch in node["fields"].items():
             _apply_pre_sets(world, ch, tuple(path) + (fn,), pre_sets)
     elif node["k"] == "l":
